@@ -7,6 +7,7 @@ package main
 import (
 	"fmt"
 	"go/types"
+	"os"
 	"sort"
 	"strings"
 	"sync"
@@ -28,6 +29,7 @@ type runConfig struct {
 	deadline      time.Time
 	dumpDir       string
 	allViolations bool
+	trace         bool
 }
 
 type pathResult struct {
@@ -91,7 +93,7 @@ func (m *machine) newInterp(s *Solver, cfg *runConfig, prefix []dec) *interprete
 		mutexes: map[*value]*mutexState{}, wgs: map[*value]*wgState{},
 		conds: map[*value]*condState{}, onces: map[*value]*onceState{},
 		initDone: map[*ssa.Package]bool{}, encoded: map[string]bool{}, stubsUsed: map[string]bool{},
-		knownOn: cfg.known, params: cfg.params,
+		knownOn: cfg.known, params: cfg.params, tracing: cfg.trace,
 	}
 }
 
@@ -118,7 +120,17 @@ func (m *machine) runPath(s *Solver, fn *ssa.Function, cfg *runConfig, prefix []
 	select {
 	case end = <-i.done:
 	case <-time.After(time.Until(cfg.deadline)):
-		end = pathEnd{kind: "timeout", msg: "run deadline reached"}
+		desc := ""
+		for _, t := range i.threads {
+			if !t.dead {
+				desc += fmt.Sprintf("[%s: %s] ", t.name, t.blocked)
+			}
+		}
+		cur := "?"
+		if i.cur != nil {
+			cur = i.cur.name
+		}
+		end = pathEnd{kind: "timeout", msg: fmt.Sprintf("run deadline reached; cur=%s runq=%d stalled=%d steps=%d threads: %s", cur, len(i.runq), len(i.stalled), i.steps, desc)}
 	}
 	close(i.killed)
 	waitc := make(chan struct{})
@@ -349,3 +361,24 @@ func sortedKeys(m map[string]bool) []string {
 }
 
 var _ = types.Typ
+
+// traceOne runs a single path along the given decisions with call tracing on.
+func (m *machine) traceOne(pkgPath, fname string, cfg *runConfig, decisions []dec) {
+	fn := m.lookupFunc(pkgPath, fname)
+	if fn == nil {
+		fmt.Println("harness not found")
+		return
+	}
+	s, err := newSolver(cfg.solverBin, []string{"-in"}, cfg.timeoutMs)
+	if err != nil {
+		fmt.Println(err)
+		return
+	}
+	defer s.close()
+	cfg.trace = true
+	res := m.runPath(s, fn, cfg, decisions, false)
+	fmt.Fprintf(os.Stderr, "END %s %s\n", res.end.kind, res.end.msg)
+	for _, v := range res.violations {
+		fmt.Fprintf(os.Stderr, "VIOLATION %s %s\n", v.Kind, v.Label)
+	}
+}
